@@ -172,6 +172,9 @@ func (g *gen) chanType(name string, typs []types.Type) (types.Type, types.ChanDi
 	if !ok {
 		return nil, types.SendRecv, fmt.Errorf("%s, the argument, %s, is not of type chan", name, typs[0])
 	}
+	if chanTyp.Dir() == types.SendOnly {
+		return nil, types.SendRecv, fmt.Errorf("%s cannot receive from a send only channel: %s", name, typs[0])
+	}
 	chanOfChanTyp, ok := chanTyp.Elem().(*types.Chan)
 	if !ok {
 		return nil, types.SendRecv, fmt.Errorf("%s, the argument, %s, is not of type chan of chan", name, typs[0])
